@@ -573,8 +573,13 @@ impl Shape {
                             return other.clone();
                         }
                     }
+                    // While this pair is being expanded it is assumed to be
+                    // compatible, which cuts cycles that run through two
+                    // different recursive constraints.
+                    let idx = seen.len();
+                    seen.push((cref.val.clone(), other.clone(), other.clone()));
                     let result = other.narrow_cached(&expanded, symbol_table, seen);
-                    seen.push((cref.val.clone(), other.clone(), result.clone()));
+                    seen[idx].2 = result.clone();
                     result
                 } else {
                     Shape::TypeErr(
